@@ -8,7 +8,13 @@ girepository/gitypelib-internal.h, gitypelib.c, gthash.c and girmodule.c on ever
 * the separator of the c_prefix list in `g_typelib_matches_gtype_name_prefix`,
 * in gthash.c: the width of the size counter, of a table slot, the alignment of the table,
   the clamp statement of `_gi_typelib_hash_search`,
-* in girmodule.c: the width of `required_size` and the alignment of the section.
+* in girmodule.c: the width of `required_size` and the alignment of the section,
+* in girepository.c: the CACHE SKELETON of the repository-level lookups - for register_internal,
+  get_registered_status, g_irepository_find_by_gtype and g_irepository_find_by_error_domain (and
+  any other function that touches priv->info_by_gtype / info_by_error_domain / unknown_gtypes)
+  every statement that reads, fills or clears one of the five tables of GIRepositoryPrivate and
+  every `return`, each with the chain of `if`/`else` conditions it is nested in.  The model's
+  `registerInternal` takes "is the negative cache cleared on this branch" from this table.
 
 Regex over regular C; anything that no longer has the expected shape is a translator failure
 (the check then reports that the source no longer has the shape it reads)."""
@@ -61,6 +67,171 @@ def uint_bits(ctype):
     if not m:
         fail('unexpected integer type %r' % ctype)
     return int(m.group(1))
+
+
+TABLES = ('typelibs', 'lazy_typelibs', 'info_by_gtype', 'info_by_error_domain', 'unknown_gtypes')
+CACHES = ('info_by_gtype', 'info_by_error_domain', 'unknown_gtypes')
+LOOKUP_FUNCS = ('get_registered_status', 'register_internal', 'g_irepository_find_by_gtype',
+                'g_irepository_find_by_error_domain')
+
+
+def squeeze(s):
+    return ''.join(s.split())
+
+
+class StmtWalker(object):
+    """walks the statements of one C function body (regular C: blocks, if/else, loops, simple
+    statements) and records table uses and returns together with their guards"""
+
+    def __init__(self, src):
+        self.s = src
+        self.out = []
+
+    def ws(self, i):
+        while i < len(self.s) and self.s[i].isspace():
+            i += 1
+        return i
+
+    def kw(self, i, w):
+        nxt = self.s[i + len(w):i + len(w) + 1]
+        return self.s.startswith(w, i) and not (nxt.isalnum() or nxt == '_')
+
+    def skipstr(self, j):
+        q = self.s[j]
+        j += 1
+        while self.s[j] != q:
+            if self.s[j] == '\\':
+                j += 1
+            j += 1
+        return j + 1
+
+    def parens(self, i):
+        if self.s[i] != '(':
+            fail('girepository.c: "(" expected near %r' % self.s[i:i + 40])
+        d = 0
+        j = i
+        while True:
+            c = self.s[j]
+            if c in '"\'':
+                j = self.skipstr(j)
+                continue
+            if c == '(':
+                d += 1
+            elif c == ')':
+                d -= 1
+                if d == 0:
+                    return self.s[i + 1:j], j + 1
+            j += 1
+
+    def last_arg(self, text, i):
+        j = text.index('(', i)
+        d = 0
+        cur = ''
+        for k in range(j, len(text)):
+            c = text[k]
+            if c == '(':
+                d += 1
+                if d > 1:
+                    cur += c
+            elif c == ')':
+                d -= 1
+                if d == 0:
+                    return squeeze(cur)
+                cur += c
+            elif c == ',' and d == 1:
+                cur = ''
+            else:
+                cur += c
+        return squeeze(cur)
+
+    def uses(self, text, guards, cond=False):
+        for m in re.finditer(r'(\w+)\s*\(\s*repository->priv->(\w+)\s*[,)]', text):
+            callee, table = m.group(1), m.group(2)
+            if table not in TABLES or callee == 'g_hash_table_destroy':
+                continue
+            if callee == 'find_by_gtype':
+                callee += '(' + self.last_arg(text, m.start()) + ')'
+            self.out.append((list(guards), ('cond:' if cond else '') + callee, table))
+
+    def stmt(self, i, guards):
+        i = self.ws(i)
+        s = self.s
+        if s[i] == '{':
+            i += 1
+            while True:
+                i = self.ws(i)
+                if s[i] == '}':
+                    return i + 1
+                i = self.stmt(i, guards)
+        if self.kw(i, 'if'):
+            cond, j = self.parens(self.ws(i + 2))
+            self.uses(cond, guards, cond=True)
+            c = squeeze(cond)
+            j = self.stmt(j, guards + ['if:' + c])
+            k = self.ws(j)
+            if self.kw(k, 'else'):
+                return self.stmt(k + 4, guards + ['else:' + c])
+            return j
+        for w in ('while', 'for', 'switch'):
+            if self.kw(i, w):
+                cond, j = self.parens(self.ws(i + len(w)))
+                self.uses(cond, guards, cond=True)
+                return self.stmt(j, guards + [w + ':' + squeeze(cond)])
+        if self.kw(i, 'do'):
+            j = self.ws(self.stmt(i + 2, guards + ['do']))
+            if not self.kw(j, 'while'):
+                fail('girepository.c: do without while')
+            cond, j = self.parens(self.ws(j + 5))
+            self.uses(cond, guards, cond=True)
+            return s.index(';', j) + 1
+        j = i
+        d = 0
+        while True:
+            c = s[j]
+            if c in '"\'':
+                j = self.skipstr(j)
+                continue
+            if c in '([{':
+                d += 1
+            elif c in ')]}':
+                d -= 1
+            elif c == ';' and d == 0:
+                break
+            j += 1
+        self.uses(s[i:j], guards)
+        for w in ('return', 'goto'):
+            if self.kw(i, w):
+                self.out.append((list(guards), w, ''))
+        return j + 1
+
+
+def cache_sites():
+    src = strip_comments(read('girepository.c'))
+    src = re.sub(r'^[ \t]*#.*$', '', src, flags=re.M)
+    res = []
+    seen = set()
+    try:
+        for m in re.finditer(r'^(\w+)\s*\(', src, re.M):
+            name = m.group(1)
+            w = StmtWalker(src)
+            _, j = w.parens(src.index('(', m.start()))
+            j = w.ws(j)
+            if j >= len(src) or src[j] != '{':
+                continue
+            w.stmt(j, [])
+            touches = any(t in CACHES for _g, _c, t in w.out)
+            if not (touches or name in LOOKUP_FUNCS):
+                continue
+            seen.add(name)
+            for g, c, t in w.out:
+                if name in LOOKUP_FUNCS or t in CACHES:
+                    res.append((name, g, c, t))
+    except (IndexError, ValueError) as e:
+        fail('girepository.c: statement structure not recognised (%r)' % (e,))
+    for fn in LOOKUP_FUNCS:
+        if fn not in seen:
+            fail('girepository.c: function %s not found' % fn)
+    return res
 
 
 def main():
@@ -140,7 +311,9 @@ def main():
     if not (rm and ra):
         fail('required_size of add_directory_index_section not recognised')
 
-    text = '''-- GENERATED by translators/gen_lookup.py from girepository/{gitypelib-internal.h,gitypelib.c,gthash.c,girmodule.c}. Do not edit.
+    sites = cache_sites()
+
+    text = '''-- GENERATED by translators/gen_lookup.py from girepository/{gitypelib-internal.h,gitypelib.c,gthash.c,girmodule.c,girepository.c}. Do not edit.
 namespace GIVerif.Gen
 
 /-- enumerators of GTypelibBlobType as declared in the header -/
@@ -181,6 +354,12 @@ def hashClampTo : Nat := %s
 def requiredSizeBits : Nat := %d
 def sectionAlign : Nat := %d
 
+/-- girepository.c: cache skeleton of the repository-level lookups: (function, guards from the
+    outermost `if:`/`else:` condition inwards, callee or `return`, table of GIRepositoryPrivate) in
+    source order (`cond:` = the use sits inside the condition of an `if`) -/
+def cacheSites : List (String × List String × String × String) := [
+%s]
+
 end GIVerif.Gen
 ''' % (lean_list(['(%s, %d)' % (lean_str(n), v) for n, v in enum]),
        lean_list(['(%s, %d)' % (lean_str(n), values[n]) for n in inline_names]),
@@ -192,7 +371,9 @@ end GIVerif.Gen
        uint_bits(cm.group(1)) // 8, int(am.group(1)), uint_bits(pm.group(1)) // 8,
        uint_bits(tm.group(1)), uint_bits(addm.group(1)),
        lean_str(norm(clamp.group(1))), clamp.group(2),
-       uint_bits(rm.group(1)), int(ra.group(1)))
+       uint_bits(rm.group(1)), int(ra.group(1)),
+       ',\n'.join('  (%s, %s, %s, %s)' % (lean_str(f), lean_list([lean_str(x) for x in g]), lean_str(c), lean_str(t))
+                  for f, g, c, t in sites))
     path, digest, changed = write_if_changed('Lookup.lean', text)
     print('gen_lookup: %s sha256=%s changed=%s registered=%s' % (path, digest[:12], changed,
                                                                  ','.join(inline_names)))
